@@ -196,7 +196,7 @@ func (g *Gen) snippet() string {
 		{"vtext", func() string { return Pick(r, []string{`<p v-text="title">old</p>`, `<p v-text="html"></p>`}) }},
 		{"pipes", func() string {
 			return Pick(r, []string{`<p>{{ name | upper }} {{ title | lower }}</p>`, `<p>{{ title | lower | title }}</p>`, `<p>{{ items | len }} {{ missing | default("dflt") }}</p>`, `<p>{{ user | json }}</p>`, `<p>{{ name | trim | escape }} {{ n | string }} {{ num | int }}</p>`, `<p :title="name | upper">{{ html | escape }}</p>`,
-				`<pre>{{ user | jsonPretty }}</pre>`, `<p>{{ n | type }} {{ name | type }} {{ items | type }} {{ missing | type }}</p>`, `<p>{{ m | jsonPretty }}</p>`})
+				`<pre>{{ user | jsonPretty }}</pre>`, `<p>{{ items[0].tags | upper }} {{ items[1].tags | lower }} {{ user.fmonly }}</p>`, `<p>{{ n | type }} {{ name | type }} {{ items | type }} {{ missing | type }}</p>`, `<p>{{ m | jsonPretty }}</p>`})
 		}},
 		{"funcs", func() string {
 			g.Eng.Funcs = true
@@ -310,7 +310,7 @@ func (g *Gen) snippet() string {
 			// names that only a leaked scope would bind, a wide attribute list
 			switch r.Intn(5) {
 			case 0:
-				n := Pick(r, []int{126, 127, 128, 129, 140})
+				n := Pick(r, []int{126, 127, 128, 129, 140, 205})
 				return strings.Repeat("<div>", n) + "<i>{{ name }}</i>" + strings.Repeat("</div>", n)
 			case 1:
 				comp := "components/ListWide.vuego"
